@@ -8,9 +8,13 @@
 (* trace specification replays recorded histories through them.            *)
 (***************************************************************************)
 EXTENDS Naturals, FiniteSets, Sequences
-Objects == {1, 2, 3}
+\* 4: an object that cannot carry the registry's attributes (it has no instance dict): it cannot be registered
+Objects == {1, 2, 3, 4}
 IsClass(o) == o = 3
+Unregistrable(o) == o = 4
 Ids == {"x", "y", "g1", "g2", "g3", "g4"}
+\* ids no URI can carry (they contain white space or an at-sign): a registration under them is refused
+BadIds == {"sp", "at"}
 None == [obj |-> 0, weak |-> FALSE]
 
 IdOf(reg, o) == IF \E i \in DOMAIN reg : reg[i].obj = o THEN CHOOSE i \in DOMAIN reg : reg[i].obj = o ELSE ""
@@ -21,6 +25,7 @@ Del(reg, S) == [x \in DOMAIN reg \ S |-> reg[x]]
 \* result of register(o, id, force, weak): [reg, out]
 DoRegister(reg, o, i, force, weak) ==
     IF IsClass(o) /\ weak THEN [reg |-> reg, out |-> "TypeError"]
+    ELSE IF Unregistrable(o) \/ i \in BadIds THEN [reg |-> reg, out |-> "error"]      \* refused, whatever the flags, without effect
     ELSE IF i = "daemon" /\ ~force THEN [reg |-> reg, out |-> "DaemonError"]     \* the reserved id is always taken
     ELSE IF ~force /\ (i \in DOMAIN reg \/ Registered(reg, o)) THEN [reg |-> reg, out |-> "DaemonError"]
     ELSE [reg |-> Put(Del(reg, {j \in DOMAIN reg : reg[j].obj = o}), i, o, weak), out |-> "ok"]
@@ -38,7 +43,7 @@ Init == reg = EmptyReg /\ held = Objects /\ ngen = 0
 GenId == IF ngen = 0 THEN "g1" ELSE IF ngen = 1 THEN "g2" ELSE IF ngen = 2 THEN "g3" ELSE "g4"
 \* the environment's choices are limited to what the statement covers: force only to displace a different object on an
 \* occupied id or to re-register the same object under its own id; an object is never put under two ids at once
-ForceOK(o, i) == i \in DOMAIN reg /\ (reg[i].obj = o \/ ~Registered(reg, o))
+ForceOK(o, i) == i \in DOMAIN reg /\ (reg[i].obj = o \/ ~Registered(reg, o)) /\ ~Unregistrable(o)
 Register(o, i, force, weak) ==
     /\ o \in held /\ (force => ForceOK(o, i)) /\ (weak => ~IsClass(o) \/ ~force)
     /\ reg' = DoRegister(reg, o, i, force, weak).reg /\ UNCHANGED <<held, ngen>>
@@ -56,6 +61,7 @@ RegisterAsDaemon(o, weak) == o \in held /\ reg' = DoRegister(reg, o, "daemon", F
 Gc(o) == /\ o \in held /\ ~IsClass(o) /\ (Registered(reg, o) => reg[IdOf(reg, o)].weak)
          /\ held' = held \ {o} /\ reg' = DoGc(reg, o) /\ UNCHANGED ngen
 Next == \/ \E o \in Objects, i \in {"x", "y"}, f \in BOOLEAN, w \in BOOLEAN : Register(o, i, f, w)
+        \/ \E o \in Objects \ {4}, i \in BadIds : Register(o, i, FALSE, FALSE)
         \/ \E o \in Objects, w \in BOOLEAN : RegisterGen(o, w)
         \/ \E i \in {"x", "y", "g1", "daemon"} : UnregisterId(i)
         \/ \E o \in Objects : UnregisterObj(o) \/ Gc(o)
